@@ -108,7 +108,7 @@ def typedLine (st : YState) (e : SExp) : YState × String :=
         else if !listEq evEq tevs (typedEvents a uevs) then
           fail s!"reject C20 typed events {showEvs tevs} are not the untyped events {showEvs uevs} restricted to {st.kind}"
         else if !listEq cbEq tmon (typedLog a umon) then
-          fail s!"reject C20 typed monitor callbacks {tmon.map showCb} are not the untyped ones {umon.map showCb} restricted to {st.kind}"
+          fail s!"reject C20/C16 typed monitor callbacks {tmon.map showCb} are not the untyped ones {umon.map showCb} restricted to {st.kind}"
         else (st, "ok")
       | _, _, _, _, _, _ => (st, "bad tobs payload")
     | _, _, _, _ => (st, "bad tobs")
